@@ -28,7 +28,7 @@ from insights.core.plugins import datasource, is_datasource, parser
 from insights.core.spec_factory import RegistryPoint, SpecDescriptor, SpecSet, first_of
 
 OUTCOMES = ["v", "n", "skip", "content", "crash", "calledproc", "timeout", "blacklisted"]
-F_NONE = "none-result-is-a-value"
+RAISING = ("skip", "content", "crash", "calledproc", "timeout", "blacklisted")
 F_FREE = "context-free-implementation"
 F_REACH = "context-through-registry-point"
 
@@ -485,21 +485,23 @@ def oracle(report, world, case, active, b, err, desc):
             if req_ok and last["cid"] not in called:
                 report.failure("spec %s: the latest implementation declared for context %d (%d) has its requirements met but was not executed"
                                % (sp, c, last["cid"]), desc, finding=fid)
-        # "yields nothing" includes returning None: the spec must then be ABSENT (`point not in broker`), not present
-        # with the value None, and no parser may be handed None  (presence is checked, never broker.get)
-        none_fid = fid
-        if fid is None and last is not None and (
-                world.outcome.get(last["cid"]) == "n" or
-                last["kind"] == "firstof" and "n" in (world.outcome.get(last["helper"]), world.outcome.get(last["helper2"]))):
-            none_fid = F_NONE           # predicate on the input: the latest implementation (or what first_of passes on) returns None
-        for p in fam["points"]:
-            point = world.comps[p]
-            if point in b.instances and b.instances[point] is None:
-                report.failure("spec %s, registry point %d: PRESENT in the broker with the value None (the latest implementation for "
-                               "context %d%s returned None = yielded nothing): it must be absent" % (
-                                   sp, p, c, (" (%d)" % last["cid"]) if last else ""), desc, finding=none_fid)
-            if any(pc == p and isnone for pc, isnone in world.parser_calls):
-                report.failure("spec %s, registry point %d: a parser was invoked with None" % (sp, p), desc, finding=none_fid)
+        # a RAISING latest implementation (SkipComponent, ContentException, CalledProcessError, TimeoutException,
+        # BlacklistedSpec, any other exception) has produced nothing: the spec must be ABSENT at every level
+        # (`point not in broker` — presence is checked, broker.get would hide a stored None) and no parser of the spec
+        # may be invoked.  Returning None is a VALUE: the spec is then present with None, taken from the latest
+        # implementation, and its parser receives None (covered by the value clause below).
+        if last is not None and last["cid"] in called and world.outcome.get(last["cid"]) in RAISING:
+            for p in fam["points"]:
+                if world.comps[p] in b.instances:
+                    report.failure("spec %s, registry point %d: PRESENT in the broker with %r although the latest implementation for "
+                                   "context %d (%d) raised (%s)" % (sp, p, b.instances[world.comps[p]], c, last["cid"],
+                                                                    world.outcome[last["cid"]]), desc, finding=fid)
+                if any(pc == p for pc, _ in world.parser_calls):
+                    report.failure("spec %s, registry point %d: its parser was invoked although the latest implementation for "
+                                   "context %d (%d) raised (%s)" % (sp, p, c, last["cid"], world.outcome[last["cid"]]), desc, finding=fid)
+            if world.comps[last["cid"]] in b.instances:
+                report.failure("spec %s: the raising implementation %d is itself present in the broker with %r"
+                               % (sp, last["cid"], b.instances[world.comps[last["cid"]]]), desc, finding=fid)
         # the value seen at EVERY level's registry point
         for p in fam["points"]:
             point = world.comps[p]
@@ -1078,7 +1080,8 @@ def run(chk):
                 "20% of the later classes REDEFINE an earlier class under the same module and class name (identical dr.get_name of "
                 "the implementations, different objects); outcomes per implementation: value, None, SkipComponent, ContentException, "
                 "CalledProcessError, TimeoutException, BlacklistedSpec, generic exception; a real @parser consumes every registry "
-                "point and must never be handed None; presence in the broker is checked, not broker.get; "
+                "point; returning None is a value (spec present with None from the latest implementation), a raising latest "
+                "implementation leaves the spec absent and its parser uninvoked; presence in the broker is checked, not broker.get; "
                 "implementations are decorated with plain @datasource, SPECIALISED subclasses of datasource (one and two levels "
                 "deep, extra class attributes: every / the newest / older / random implementations of a spec), the factory helper "
                 "first_of, and rarely a non-datasource component type merely NAMED 'datasource' (must not be wired); the model's "
@@ -1122,7 +1125,7 @@ def run(chk):
     ]
     chk.lean()
     # ---- witnesses of the known findings (corpus first)
-    for fid in (F_FREE, F_REACH, F_NONE):
+    for fid in (F_FREE, F_REACH):
         w = load_witness(fid)
         world, b, found, _ = run_script(w)
         chk.witnesses.append({"id": fid, "reproduces": bool(found), "oracle": [d for d, _ in found][:2]})
